@@ -224,8 +224,8 @@ pub fn rand_limbs(ctx: &mut Ctx, len: usize) -> Vec<u64> {
 
 pub fn val_of_len(ctx: &mut Ctx, kid: u8, len: usize) -> Val {
     let limbs = rand_limbs(ctx, len);
-    let spare = if ctx.rng.chance(1, 3) { ctx.rng.below(4) as usize } else { 0 };
-    let dynmode = ctx.rng.chance(1, 4);
+    let spare = if ctx.rng.chance(1, 2) { 1 + ctx.rng.below(3) as usize } else { 0 };
+    let dynmode = ctx.rng.chance(1, 3);
     make_val(kid, len, &limbs, spare, dynmode)
 }
 
@@ -332,7 +332,7 @@ fn small_scope_binops(ctx: &mut Ctx, ops: &[u32], maxlen: usize, kinds: &[u8]) {
     }
 }
 
-const REP_KINDS: [u8; 7] = [0, 2, 4, 8, 11, 14, 15];
+const REP_KINDS: [u8; 8] = [0, 2, 4, 8, 11, 14, 15, 18];
 
 fn gen_c01(ctx: &mut Ctx) {
     let pp = ctx.scale(12, 120);
@@ -482,11 +482,16 @@ fn gen_c06(ctx: &mut Ctx) {
     for ka in 0..NKINDS {
         for _ in 0..n {
             let a = rand_val(ctx, ka);
-            let k = match ctx.rng.below(5) {
+            let w = kind_w(ka);
+            let k = match ctx.rng.below(8) {
                 0 => 0,
                 1 => a.len,
                 2 => a.len / 2,
                 3 => a.len.saturating_sub(1),
+                // whole words of the storage type / of 64 bits (fast paths, chunk alignment)
+                4 => (w * (1 + ctx.rng.below(3) as usize)).min(a.len),
+                5 => (64 * (1 + ctx.rng.below(3) as usize)).min(a.len),
+                6 => a.len - (a.len % w.max(1)).min(a.len),
                 _ => ctx.rng.below(a.len as u64 + 1) as usize,
             };
             ctx.emit(Case::new(54 + ctx.rng.below(2) as u32).arg(k as u128).val(a));
@@ -669,7 +674,7 @@ fn observer_battery(ctx: &mut Ctx, a: &Val, n: u64) {
                 let b = if ctx.rng.chance(1, 2) { same_value_other(ctx, a, kb) } else { rand_val(ctx, kb) };
                 Case::new(34 + ctx.rng.below(2) as u32).val(a.clone()).val(b)
             }
-            8 => Case::new(11).kind(rand_kind(ctx)).val(a.clone()),
+            8 => Case::new(11).kind(rand_kind(ctx)).form(ctx.rng.below(2) as u32).val(a.clone()),
             9 => Case::new(20).val(a.clone()),
             10 => Case::new(25 + ctx.rng.below(2) as u32).val(a.clone()),
             11 => iter_case(ctx, a),
@@ -764,7 +769,21 @@ fn iter_case(ctx: &mut Ctx, a: &Val) -> Case {
     Case::new(30).form(ctx.rng.below(2) as u32).val(a.clone()).list(calls)
 }
 
+/// zeros / ones / repeat / with_capacity of every kind at boundary lengths (within capacity)
+fn ctor_cases(ctx: &mut Ctx) {
+    for k in 0..NKINDS {
+        for len in boundary_lens(k, ctx.thorough) {
+            ctx.emit(Case::new(1).kind(k).arg(len as u128));
+            ctx.emit(Case::new(2).kind(k).arg(len as u128));
+            ctx.emit(Case::new(13).kind(k).arg(0).arg(len as u128));
+            ctx.emit(Case::new(13).kind(k).arg(1).arg(len as u128));
+            ctx.emit(Case::new(3).kind(k).arg(len as u128));
+        }
+    }
+}
+
 fn gen_c03(ctx: &mut Ctx) {
+    ctor_cases(ctx);
     let all: Vec<u8> = (0..NKINDS).collect();
     let n = ctx.scale(1500, 30000);
     histories(ctx, n, 12, true, &all);
@@ -809,6 +828,17 @@ fn gen_c08(ctx: &mut Ctx) {
                 }
                 ctx.emit(Case::new(49).arg(s as u128).val(a.clone()));
                 ctx.emit(Case::new(50).arg(s as u128).val(a.clone()));
+            }
+        }
+        for len in boundary_lens(ka, ctx.thorough) {
+            for spare in 0..3usize {
+                for limbs in [vec![u64::MAX; (len + 63) / 64], { let mut t = vec![0u64; (len + 63) / 64]; if len > 0 { t[(len - 1) / 64] |= 1u64 << ((len - 1) % 64); t[0] |= 1; } t }, vec![0u64; (len + 63) / 64]] {
+                    let a = make_val(ka, len, &limbs, spare, spare % 2 == 1);
+                    ctx.emit(Case::new(25).val(a.clone()));
+                    ctx.emit(Case::new(26).val(a.clone()));
+                    ctx.emit(Case::new(49).arg((len / 2) as u128).val(a.clone()));
+                    ctx.emit(Case::new(51).arg(0).arg(len as u128).val(a));
+                }
             }
         }
         for _ in 0..n {
@@ -939,7 +969,7 @@ fn gen_c12(ctx: &mut Ctx) {
                 } else {
                     rand_val(ctx, ks)
                 };
-                ctx.emit(Case::new(11).kind(kt).val(a));
+                ctx.emit(Case::new(11).kind(kt).form(ctx.rng.below(2) as u32).val(a));
             }
         }
         for _ in 0..pp * 4 {
@@ -1084,6 +1114,7 @@ fn gen_c15(ctx: &mut Ctx) {
 }
 
 fn gen_c16(ctx: &mut Ctx) {
+    ctor_cases(ctx);
     let n = ctx.scale(30, 300);
     for k in 0..NKINDS {
         for len in boundary_lens(k, ctx.thorough) {
@@ -1117,6 +1148,7 @@ fn gen_c17(ctx: &mut Ctx) {
 }
 
 fn gen_c18(ctx: &mut Ctx) {
+    ctor_cases(ctx);
     let n = ctx.scale(2000, 12000);
     histories(ctx, n, 12, true, &[KD, KA, KD, KA, 8, 2]);
     for k in [KD, KA, 0, 8] {
@@ -1135,7 +1167,7 @@ fn gen_c18(ctx: &mut Ctx) {
 }
 
 fn gen_c19(ctx: &mut Ctx) {
-    for k in 0..14u8 {
+    for k in fixed_kinds() {
         let cap = kind_cap(k);
         let w = kind_w(k);
         for c in [cap - 1, cap, cap + 1, cap + w, 2 * cap + 3] {
@@ -1195,6 +1227,28 @@ fn gen_c19(ctx: &mut Ctx) {
 }
 
 fn gen_c20(ctx: &mut Ctx) {
+    // every operator x every form for every pairing of storage classes (fixed narrow / fixed wide /
+    // heap / auto inline / auto heap), so that each delegating impl is executed at least once
+    let classes: [(u8, bool); 6] = [(0, false), (4, false), (8, false), (KD, false), (KA, false), (KA, true)];
+    for (ka, da) in classes {
+        for (kb, db) in classes {
+            for op in 63..=70u32 {
+                for form in 0..6u32 {
+                    let la = rand_len(ctx, ka).max(1);
+                    let la = if ka == KA && da { la.max(3) } else { la };
+                    let limbs = rand_limbs(ctx, la);
+                    let a = make_val(ka, la, &limbs, (da as usize) * 2, da);
+                    let lb = rand_len(ctx, kb).max(1);
+                    let mut lb_limbs = rand_limbs(ctx, lb);
+                    if lb_limbs.iter().all(|x| *x == 0) {
+                        lb_limbs[0] = 3;
+                    }
+                    let b = make_val(kb, lb, &lb_limbs, (db as usize) * 2, db);
+                    ctx.emit(Case::new(op).form(form).val(a).val(b));
+                }
+            }
+        }
+    }
     // every form of every operator on the same operands
     let pp = ctx.scale(2, 20);
     for ka in 0..NKINDS {
